@@ -44,9 +44,9 @@ ANCHORS = [
     "gemseo.utils.derivatives.derivatives_approx:DisciplineJacApprox.check_jacobian",
 ]
 MIN_COUNTERS = {
-    "quick": {"grad_oracle_evaluations": 1500, "points_checked_against_ub": 3000, "near_ub_cases": 100,
-              "subset_cases": 300, "parallel_equals_serial_checked": 50, "discipline_linearize_checked": 30,
-              "check_jacobian_verdicts": 30},
+    "quick": {"grad_oracle_evaluations": 6000, "points_checked_against_ub": 12000, "near_ub_cases": 500,
+              "subset_cases": 1500, "parallel_equals_serial_checked": 150, "discipline_linearize_checked": 300,
+              "check_jacobian_verdicts": 1200},
     "thorough": {"grad_oracle_evaluations": 50000, "points_checked_against_ub": 100000, "near_ub_cases": 3000,
                  "subset_cases": 10000, "parallel_equals_serial_checked": 1500,
                  "discipline_linearize_checked": 800, "check_jacobian_verdicts": 800},
@@ -59,8 +59,8 @@ CLS = {"fd": "FirstOrderFD", "cd": "CenteredDifferences", "cs": "ComplexStep"}
 
 def shards(tier, seed):
     n = {"quick": 16, "thorough": 16}[tier]
-    per = {"quick": 260, "thorough": 9000}[tier]
-    disc = {"quick": 6, "thorough": 130}[tier]
+    per = {"quick": 1000, "thorough": 9000}[tier]
+    disc = {"quick": 20, "thorough": 130}[tier]
     return [{"seed": subseed(seed, "C16", i), "n_cases": per, "n_disc": disc,
              "budget_s": {"quick": 200, "thorough": 1500}[tier]} for i in range(n)]
 
